@@ -16,6 +16,7 @@ fn main() {
 
     arith::window_cases(&mut cs, &mut st, &[K_ROW, K_COL], &[-4, -2, -1, 1, 2, 4], a.thorough);
     ops::cmap_window(&mut cs, &mut st, &[K_ROW, K_COL], &[-7, -2, -1, 1, 2, 7]);
+    ops::valid_cases(&mut cs, &mut st, &[-7, -2, -1, 0, 1, 2, 7]);
     ops::app_window(&mut cs, &mut st, &[K_ROW, K_COL], if a.thorough { &[-7, -2, -1, 1, 2, 7] } else { &[-2, 2] }, a.thorough);
 
     let mut scratch = Scratch::new();
